@@ -267,6 +267,19 @@ prop("C20", "exploration",
      [{"test": "TestC20", "quick": {"checks": 1500, "shards": 4, "timeout": 900},
        "thorough": {"checks": 15000, "shards": 16, "timeout": 3000}}])
 
+prop("C16", "exploration",
+     "cases = scripted scenarios (Byzantium..Cancun, 1-3 contracts, 2-8 journal blocks each that register several members "
+     "under the same parent key with value / reference index keys and journal them, CALL / DELEGATECALL between the "
+     "contracts, value transfers, 1-2 invocations). Each case is executed 8 times (thorough: 32) on fresh EVMs over equal "
+     "pre-states, alternately with and without a debug tracer, and for half of the cases an unrelated scenario runs on its "
+     "own EVM between the repetitions. Oracle: a canonical rendering of return data, gas, error, state root, logs, the "
+     "whole call tree and EVERY query result of the state-change tracer with lists IN THE ORDER RETURNED (Children, "
+     "ChildrenIndices, IndicesOfChanges, call children, change lists, lookups by slot) must be byte-identical across the "
+     "repetitions; the tracer of the unrelated EVM must know nothing about accounts only the other one touched. "
+     "Non-trivial = some returned list has >= 2 elements.",
+     [{"test": "TestC16", "quick": {"checks": 1500, "shards": 2, "timeout": 600},
+       "thorough": {"checks": 8000, "shards": 16, "timeout": 3000}}])
+
 # ---------------------------------------------------------------------------
 # Text for MANIFEST.json (gen_manifest.py)
 
@@ -434,6 +447,15 @@ MANIFEST_TEXT = {
         "level_note": "Trusted: the two small models in harness/c15_test.go, the recorder. Memory contents above 64 KiB are "
                       "not compared (counted).",
         "technique": "model-based property testing against executable EIP models (rapid)",
+    },
+    "C16": {
+        "level_text": "Property-based testing of a determinism relation: repeated execution of generated transactions in one "
+                      "process (Go randomises map iteration per range statement) must render identically, interleaved with "
+                      "unrelated executions.",
+        "design_ref": "DESIGN.md section 4, C16",
+        "level_note": "A nondeterminism that needs more than 8 (32) repetitions or another process to show is missed; map-order "
+                      "dependence over lists of n >= 2 elements shows with probability 1 - (1/n!)^(reps-1) per case.",
+        "technique": "property-based testing of a repetition (determinism) relation (rapid)",
     },
     "C18": {
         "level_text": "Differential property-based testing of the complete debug-tracer callback stream and of six inherited "
